@@ -900,6 +900,61 @@ fn edge_values(r: &mut Rng, ty: u8, ct: u8, unsigned: bool, n: usize) -> Vec<i12
     out
 }
 
+/// Text protocol: rows of integers written with write_row; one record is too short and is
+/// refused; the shim skips it and carries on. If the tree lets it carry on, the integers of the
+/// accepted rows must arrive as themselves (not shifted by what the refused row left behind).
+pub fn gen_c15_text_carry_on(r: &mut Rng) -> Plan {
+    let ncols = 2 + r.usize_below(3);
+    let nrows = 2 + r.usize_below(4);
+    let cols: Vec<ColSpec> = (0..ncols)
+        .map(|_| {
+            let c = *r.pick(INT_COLS);
+            ColSpec {
+                table: Blob::lit(b"t"),
+                name: Blob::lit(b"c"),
+                coltype: c.0,
+                flags: if c.1 { 0x20 } else { 0 },
+            }
+        })
+        .collect();
+    let rows: Vec<Vec<Cell>> = (0..nrows)
+        .map(|_| (0..ncols).map(|_| Cell::I64(int_edge(r, i64::MIN as i128, i64::MAX as i128) as i64)).collect())
+        .collect();
+    let bad = r.usize_below(nrows) as u32;
+    let unit = RowsUnit {
+        cols,
+        rows,
+        write_row: true,
+        last_row_ended: true,
+        close: if r.coin() { Close::Finish } else { Close::FinishOne },
+        contra: Some(Contra::TooFewCols { row: bad }),
+        recover: Some((crate::model::CARRY_ON, Blob::lit(b""))),
+    };
+    let end = if unit.close == Close::FinishOne { End::NoMoreResults } else { End::Implicit };
+    let cmds = vec![
+        Cmd {
+            seq: 0,
+            kind: CmdKind::Query(Blob::lit(b"select ints")),
+            act: Act::Program(Program {
+                units: vec![Unit::Rows(unit)],
+                end,
+                ret_err: None,
+                probe_cells: false,
+                pull_params: None,
+                pull_skip: 0,
+            }),
+        },
+        Cmd {
+            seq: 0,
+            kind: CmdKind::Ping,
+            act: Act::None,
+        },
+    ];
+    let mut p = Plan::basic(cmds);
+    p.reads = gen_reads(r);
+    p
+}
+
 /// The seeded C15 plan: several integer cells that must be accepted, then possibly one that may be
 /// refused (Err or panic), each written through a probed write_col. Also run by C07 (binary rows).
 pub fn gen_c15_seeded(rng: &mut Rng) -> Plan {
@@ -1021,6 +1076,12 @@ impl Check for C15 {
             }
             return;
         }
+        if job % 25 == 19 {
+            let plan = gen_c15_text_carry_on(rng);
+            ctx.stats.bump("probe.text_rows_after_a_refused_row", 1);
+            ctx.eval(&plan);
+            return;
+        }
         if job % 50_000 == 17 {
             // text protocol: the digits of an integer straddle the 2^24-1 packet boundary
             let plan = gen_straddle_plan(rng, true);
@@ -1032,7 +1093,7 @@ impl Check for C15 {
         ctx.eval(&plan);
     }
     fn owns(&self, rule: &str) -> bool {
-        ["int-refused", "int-altered", "int-unaccounted", "resp-malformed", "text-value"].contains(&rule)
+        ["int-refused", "int-altered", "int-unaccounted", "resp-malformed", "text-value", "resp-shape"].contains(&rule)
     }
     fn extra_judge(&self, plan: &Plan, out: &Outcome, vs: &mut Vec<Violation>) {
         // locate the probe program
